@@ -342,7 +342,7 @@ func loadClass(s *source) string {
 }
 
 func positionClass(s *source) string {
-	if s.Family == "language" || s.Family == "graph" || s.Family == "current" {
+	if s.Family == "language" || s.Family == "graph" || s.Family == "current" || s.Family == "composition" {
 		return s.Family
 	}
 	d := s.Desc
@@ -397,6 +397,12 @@ func check13(s *source, st *stats) []problem {
 		}
 		return ps
 	}
+	// compositions: what has been reported about which instance (each at the first target it shows at)
+	reported := map[string]bool{}
+	var srcGeneric map[string]any
+	if s.Comp != nil {
+		srcGeneric = generic(s.Def)
+	}
 	// every newer target, in one go
 	for ti := vi + 1; ti < len(allVersions); ti++ {
 		to := allVersions[ti]
@@ -423,6 +429,9 @@ func check13(s *source, st *stats) []problem {
 		}
 		if !sameGraph(graphOfJSON(s.Def), graphOfJSON(outDef)) {
 			add("graph-changed:13.x", fmt.Sprintf("migrating to %s: nodes / exits / destinations differ\nsource:   %s\nmigrated: %s", to, mc.JSON(graphOfJSON(s.Def)), mc.JSON(graphOfJSON(outDef))))
+		}
+		if s.Comp != nil {
+			ps = append(ps, compProblems(s, srcGeneric, to, "in one go", outDef, reported, st)...)
 		}
 		// migrating again changes nothing
 		again, err, p := migrateTo(out, to)
@@ -454,6 +463,10 @@ func check13(s *source, st *stats) []problem {
 	}
 	if okSteps {
 		ps = append(ps, checkCurrent13(s, s.Def, step, "stepwise", st)...)
+		var stepDef map[string]any
+		if s.Comp != nil && json.Unmarshal(step, &stepDef) == nil {
+			ps = append(ps, compProblems(s, srcGeneric, currentVersion, "stepwise", stepDef, reported, st)...)
+		}
 	}
 	return ps
 }
@@ -629,6 +642,7 @@ func sourcesOf(tier string, emit func(*source)) {
 	familyLanguage(emit)
 	familyNames(emit)
 	familyCurrent(emit)
+	familyCompositions(tier, emit)
 	familyLegacy(emit)
 	familyLegacySpellings(emit)
 	if tier == "quick" {
@@ -710,7 +724,7 @@ func guards(r *mc.Result, tier string) []string {
 			f = append(f, msg)
 		}
 	}
-	for _, fam := range []string{"template-position", "types", "language", "names", "graph", "current", "legacy-ruleset", "legacy-action", "legacy-header", "legacy-graph", "legacy-spelling"} {
+	for _, fam := range []string{"template-position", "types", "language", "names", "graph", "current", "composition", "legacy-ruleset", "legacy-action", "legacy-header", "legacy-graph", "legacy-spelling"} {
 		need(r.Counters["valid_sources:"+fam] > 0, "no valid sources of family "+fam)
 	}
 	for _, v := range append(append([]string{}, allVersions...), "legacy") {
@@ -721,6 +735,10 @@ func guards(r *mc.Result, tier string) []string {
 	need(r.Counters["source_x_target_migrations"] >= 5*r.Counters["valid_sources"], "fewer than 5 migrations per source on average")
 	need(r.Facts["template_rewritten"] > 0, "no template was ever rewritten")
 	need(r.Facts["template_value_from_webhook_preserved"] > 0, "no template drew its value from @webhook")
+	need(r.Counters["valid_sources:composition"] >= 5000, "fewer than 5000 compositions")
+	for _, f := range []string{"composition_checked_against_alone", "composition_two_templated_messages_in_one_node_through_13.5", "composition_two_templated_messages_in_different_nodes_through_13.5", "composition_instance_with_made_up_uuid_agrees"} {
+		need(r.Facts[f] > 0, "vacuity fact never seen: "+f)
+	}
 	need(r.Counters["faults_single"] >= 20000, "fewer than 20000 single JSON faults")
 	need(r.Counters["faults_truncation"] >= 10000, "fewer than 10000 truncations")
 	need(r.Counters["fault_outcome:rejected"] > 0 && r.Counters["fault_outcome:accepted"] > 0, "faults were not both accepted and rejected")
@@ -738,7 +756,7 @@ func init() {
 		Level: "exploration",
 		Rule: "(i) bounded exhaustive enumeration of valid old definitions, each migrated by the real MigrateToVersion / MigrateToLatest to every newer version in one go and stepwise, loaded by the real ReadFlow and compared with the source: " +
 			"every template position of every action and router type x 30 @webhook templates (none rebinding webhook as a lambda parameter) x translations x templating shapes, every action / router / wait / hint type, flow languages x localisation keys, result and category names around the 64 / 36 limits (ASCII, multi-byte, all-space), " +
-			"all canonical flow graphs of <= 2 (thorough: 3) nodes over the structural node alphabet, each at each of 13.0 ... 13.5, definitions already current (three formattings); legacy definitions: every ruleset_type (subflow, webhook, resthook, form_field, flow_field, contact_field, expression, group, random, airtime incl. two countries sharing currency and amount, every wait_*), every rule test type, every action type, rules of one category sharing a destination, " +
+			"all canonical flow graphs of <= 2 (thorough: 3) nodes over the structural node alphabet, each at each of 13.0 ... 13.5, definitions already current (three formattings); compositions: all sequences of 2 action constructs from {send_msg with a template and 0 / 1 / 2 / 3 / 6 variables, untranslated, translated in one or two languages or in part (13.4: only the last of two components), send_msg / call_webhook / set_run_result with @webhook templates, over-long result and category names, an untouched translated send_msg} (thorough: of 3; quick: of 3 over 7 of them, without routers), every instance with content of its own, x every partition into consecutive nodes x {no router, a switch router with @webhook operand, translated case and over-long names on every node}, each at each of 13.0 ... 13.5 - at every newer target every action / router with the translations keyed by its UUIDs must equal what migrating the flow holding it alone gives (UUIDs made up by a migration compared by position); legacy definitions: every ruleset_type (subflow, webhook, resthook, form_field, flow_field, contact_field, expression, group, random, airtime incl. two countries sharing currency and amount, every wait_*), every rule test type, every action type, rules of one category sharing a destination, " +
 			"entry listed after other nodes, header forms, and all canonical legacy graphs of <= 3 (thorough: 4) nodes x every entry x layout; " +
 			"legacy spellings of every legacy string member whose migrated counterpart the current spec validates against an enumeration or a pattern: webhook_action {absent, null, \"\", all 2^n upper / lower case spellings of GET HEAD POST PUT PATCH DELETE} x {without, with headers}, flow_type and ruleset_type {absent, null}, " +
 			"save.field over contact properties, tel_e164, every current and some retired URN schemes and scheme-like field keys, reply / send media in 17 forms (full / bare / missing content type, relative / absolute / templated URL) x translated or not. " +
@@ -750,6 +768,7 @@ func init() {
 			"legacy spellings: the legacy reader validates none of these members, so a legacy definition is taken to be valid with an HTTP method in any letter case (the migration upper-cases it), with flow_type / ruleset_type missing (the migration defaults them) and with an attachment without content type (the migration defaults it to image); methods outside the six of the current spec are not in the valid space",
 			"template values are compared in one fixed context (@webhook bound to a JSON body before 13.3, to an object with that body as .json from 13.3)",
 			"faults: all single deviations from the seeds (pairs in thorough), not all byte strings",
+			"compositions: 'equivalent' is taken per instance - the migrations rewrite one action / router at a time from that action / router and the translations keyed by its UUIDs alone, so an instance among others must come out as it does alone; the comparison is made on the JSON of every intermediate target too, with UUIDs that a migration generates (13.1 templating uuid, 13.4 body component uuid) named by position",
 		},
 		Run:    run,
 		Replay: replayFn,
